@@ -373,6 +373,9 @@ Definition flst_capacity (nr bs : N) : N := N.min (N.min (nr * bs) u64max) MAX_P
 (* Vec::with_capacity(n) panics ("capacity overflow") above isize::MAX bytes *)
 Definition with_capacity (n : N) : res N := if n <=? 9223372036854775807 then Ok n else Panic site_capacity.
 
+(* `self.transfers.push(t); self.transfers_idx.insert(key, self.transfers.len() - 1)`: HashMap::insert OVERWRITES an
+   existing binding of the key -- a re-announced (ecu, lifecycle, serial) points to the NEWEST transfer from now on
+   (the new binding is put in front, [lookup_key] returns the first match; older transfers keep their number) *)
 Definition push_transfer (s : st) (t : transfer) : st :=
   mkSt (s_transfers s ++ [t]) ((t_key t, length (s_transfers s)) :: s_idx s) (s_completed s) (s_fs s) (s_gen s) (s_pub s).
 
